@@ -23,7 +23,7 @@ def parseVar (n : Bytes) : Option Var :=
   [Var.argsGet, .argsPost, .argsPath, .args, .argsNames, .argsGetNames, .argsPostNames, .reqHeaders,
    .reqHeadersNames, .tx, .matchedVar, .matchedVarName, .matchedVars, .matchedVarsNames, .argsCombinedSize,
    .reqUriRaw, .reqUri, .reqFilename, .reqBasename, .queryString, .reqMethod, .reqLine, .reqProtocol,
-   .reqCookies, .reqCookiesNames, .respHeaders, .respHeadersNames].find? (fun v => v.name == u)
+   .reqCookies, .reqCookiesNames, .respHeaders, .respHeadersNames, .env].find? (fun v => v.name == u)
 
 /-- state machine of macro.compile: `cur` is the current token in reverse, `inMacro` the flag,
     `prev` the previous input byte (for the `input[i-1] == '.'` test), `skip` = the `i++` that
